@@ -591,8 +591,20 @@ _UNITS = {}
 def unit(repo, fname, defines=(), openmp=True):
     key = (repo, fname, tuple(defines), openmp)
     if key not in _UNITS:
-        _UNITS[key] = _expand_new_helpers(load_unit(repo, fname, defines, openmp), fname)
+        u = _expand_new_helpers(load_unit(repo, fname, defines, openmp), fname)
+        from .canon import canon_body
+        for f in u.funcs.values():
+            if f.body is not None:
+                f.body = canon_body(f.body)
+        # the OpenMP regions are statements of the (expanded, canonical) bodies
+        u.omp_regions = [(q, st) for q, f in u.funcs.items() if f.body is not None for st in walk_stmts_(f.body) if st.k == 'omp']
+        _UNITS[key] = u
     return _UNITS[key]
+
+
+def walk_stmts_(stmts):
+    from .ir import walk_stmts
+    return walk_stmts(stmts)
 
 
 def _expand_new_helpers(u, fname):
